@@ -81,7 +81,8 @@ labels `lab` (replacing `el`) shifts the composition-path mass by (#atoms of `el
 theorem label_shift_concrete (env : Pept.Env) (a c : Annotation) (ion : Key) (mono : Bool) (ch : Int)
     (lab el : List Char) (hmem : (lab, el) ∈ labels8)
     (h0 : a.isotope = none) (hc : condenseStatic a = .ok c)
-    (hres : (allMods c).any (isBad (envFor env ion mono ch 0 0)) = false) :
+    (hres : (allMods c).any (isBad (envFor env ion mono ch 0 0)) = false)
+    (hrule : absentRuleBad (envFor env ion mono ch 0 0) a = false) :
     ∃ x y, massLabel (envFor env ion mono ch 0 0) { a with isotope := some [⟨.str lab, 1⟩] } = .ok x ∧
       massLabel (envFor env ion mono ch 0 0) a = .ok y ∧
       x - y = compGet (sequenceComposition (envFor env ion mono ch 0 0) { seq := a.seq }) el * (emOf mono lab - emOf mono el) := by
@@ -94,7 +95,7 @@ theorem label_shift_concrete (env : Pept.Env) (a c : Annotation) (ion : Key) (mo
     cases hp : parseIsotopeMods (fun k => (lookup (keyOfChars k) isotopicMasses).isSome) [⟨.str lab, 1⟩] with
     | error e => rw [hp] at h1; simp at h1
     | ok lm => rw [hp] at h1; simp only [beq_iff_eq] at h1; rw [h1]
-  obtain ⟨x, y, hx, hy, hxy⟩ := C12.label_spares_mods (envFor env ion mono ch 0 0) a c [⟨.str lab, 1⟩] [(el, lab)] h0 hc hres hl rfl
+  obtain ⟨x, y, hx, hy, hxy⟩ := C12.label_spares_mods (envFor env ion mono ch 0 0) a c [⟨.str lab, 1⟩] [(el, lab)] h0 hc hres hrule hl rfl
   refine ⟨x, y, hx, hy, ?_⟩
   rw [hxy, C12.label_shift_single]
   rfl
